@@ -503,6 +503,8 @@ def run(fx, tier):
     first_byte_table_rule(fx, v, 'C19')
     handshake_first_byte_rule(fx, v, 'C19')
     connack_flags_rule(fx, v, 'C19')
+    from c04 import inbound_qos_table_rule
+    inbound_qos_table_rule(fx, v, 'C19')
     from c04 import reconnect_discards_buffer_rule
     v.rule('R-DOM', 'bytes buffered from a lost connection are discarded before the next read; exact-count reads of the handshake are not replaced by raw partial reads')
     reconnect_discards_buffer_rule(fx, v, 'C19')
